@@ -149,6 +149,53 @@ def r5_every_count_guarded(chk, prog):
                   'the count is not control-dependent on ignore_cardinality or a member carrying it')
 
 
+def r6_constraint_given_values(chk, prog):
+    """a value constraint only relates values that were actually given: every compareValue( a, b) outside the
+    argument classes themselves is reachable only through edges on which a->hasValue() and b->hasValue() were both
+    found true (an unused argument still holds its default, which must never make a valid line fail)"""
+    from ..rules import implied_edges
+    n = 0
+    seen_lines = set()
+    for f in prog.functions:
+        if f.body is None or (f.cls or '').startswith('celma::prog_args::detail::TypedArg'):
+            continue
+        for c in f.calls():
+            if not (c.get('callee') or '').endswith('::compareValue'):
+                continue
+            key = (f.file, c.get('l'), c.get('col'))
+            if key in seen_lines:
+                continue
+            seen_lines.add(key)
+            objs = []
+            recv = object_of(c)
+            for e in [recv] + list(call_args(c)[:1]):
+                e0 = strip_all_casts(e) if e is not None else None
+                while e0 is not None and e0.get('k') in ('ParenExpr', 'CXXOperatorCallExpr', 'UnaryOperator') and \
+                        children(e0):
+                    e0 = strip_all_casts(children(e0)[-1] if e0.get('k') == 'CXXOperatorCallExpr' else children(e0)[0])
+                if e0 is None or e0.get('k') != 'DeclRefExpr':
+                    raise AnalysisBroken('compareValue() operand is not a plain variable at %s' % f.loc(c))
+                objs.append(e0['ref']['name'])
+            cfg = f.cfg
+            for role, var in zip(('the argument whose value is compared', 'the argument it is compared with'), objs):
+                n += 1
+
+                def has_value(x, var=var):
+                    if x.get('k') not in CALL_KINDS or not (x.get('callee') or '').endswith('::hasValue'):
+                        return False
+                    o = object_of(x)
+                    return o is not None and any(y.get('k') == 'DeclRefExpr' and y.get('ref', {}).get('name') == var
+                                                 for y in walk(o))
+                edges = implied_edges(f, has_value, True)
+                reach = cfg.reach(cfg.entry_pos(), blocked_edges=edges)
+                ok = bool(edges) and cfg.position(c) not in reach
+                chk.check(ok, 'R6', f.name, 'values are compared only when %s (%s) has a value' % (role, var), f.loc(c),
+                          'compareValue() is reachable without a test that %s->hasValue() is true: the default of an '
+                          'unused argument takes part in the constraint' % var)
+    chk.require(n >= 2, 'compareValue() call sites in value constraints: %d' % n)
+    return n
+
+
 def if_condition(ifs):
     """IfStmt children: [init / condition variable declarations ...] cond then [else]"""
     kids = [k for k in ifs.get('c', []) if isinstance(k, dict)]
@@ -234,6 +281,8 @@ def run(chk):
     r3(chk, prog)
     chk.rule('R5', 'every count against the cardinality is guarded by the ignore_cardinality information', 5)
     r5_every_count_guarded(chk, prog)
+    chk.rule('R6', 'value constraints relate only values that were given', 2)
+    r6_constraint_given_values(chk, prog)
     sub = type(chk)(chk.pid, chk.tier)
     sub._known = []
     c02.r3_canonical_key(sub, prog)
